@@ -47,8 +47,16 @@ def warmup():
                 gjk.gjk_nesterov_accelerated_primitives(A, B, use_nesterov_acceleration=True)
 
 
+# states of the thorough tier (three deviations) that carry a recorded finding: also part of the quick tier, so that the finding is
+# re-examined (and its KNOWN-FINDING line printed) on every run
+REGRESSION = [
+    {'ta': 'cone', 'tb': 'box', 'sa': 0, 'sb': 0, 'oa': 9, 'ob': 0, 'fa': 0, 'ma': 0, 'mb': 0, 'pl': 14, 'u': 2},
+    {'ta': 'box', 'tb': 'cone', 'sa': 0, 'sb': 0, 'oa': 0, 'ob': 11, 'fa': 0, 'ma': 0, 'mb': 0, 'pl': 14, 'u': 2},
+]
+
+
 def enumerate_states(tier, seed):
-    states = []
+    states = [dict(d) for d in REGRESSION]
     for ta, tb in itertools.product(sc.TYPES, sc.TYPES):
         for d in gs.enumerate_pair(ta, tb, 2):
             if d["pl"] in PLS or (tier == "thorough" and d["pl"] in (4, 6, 13)):
